@@ -30,6 +30,7 @@ func main() {
 		verbose = flag.Bool("v", false, "print every obligation instance")
 		list    = flag.Bool("list", false, "list properties and obligations")
 		noSelf  = flag.Bool("noselftest", false, "thorough: skip the rule liveness self-test")
+		dump    = flag.String("dump", "", "debug: print the CFG of the named function and exit")
 	)
 	flag.Parse()
 
@@ -49,6 +50,15 @@ func main() {
 		return
 	}
 
+	if *dump != "" {
+		abs, _ := filepath.Abs(*repo)
+		p, err := LoadProgram(abs, "", nil)
+		if err != nil {
+			fatal("%v", err)
+		}
+		dumpCFG(p, *dump)
+		return
+	}
 	var only *replayFile
 	if *replay != "" {
 		b, err := os.ReadFile(*replay)
